@@ -46,13 +46,21 @@ package aggregator
 
 // C12 (a round's final price is recorded at most once): a price submission is taken into a round only while that
 // round is open - a round that has been closed (by a final price or by its window ending) takes nothing any more.
+//@ define cmDec(p, f) = p.Tokens[p.TokenFeeders[f].TokenID].Decimal
+//@ define cmAll(msg, i, d) = forall(j, 0, len(msg.Prices[i].Prices), msg.Prices[i].Prices[j].Decimal == d)
 //@ func (*AggregatorContext).checkMsg
+//@   requires msg != nil && agc.params != nil
 //@   flag noframe
 //@   flag havoc=sanityCheck
-//@   flag pure=CheckRules,CheckDecimal
+//@   flag pure=CheckRules
 //@   ensures[C12.cm.open] err == nil ==> has(agc.rounds, msg.FeederID) && agc.rounds[msg.FeederID] != nil && agc.rounds[msg.FeederID].status == 1 &&
 //@        agc.rounds[msg.FeederID].basedBlock == msg.BasedBlock
+// C13 (a submission is counted only if its decimals match the feeder's token): EVERY price of EVERY source of an
+// accepted message carries the decimals of the token the feeder feeds.
+//@   ensures[C13.cm.decimals] err == nil ==> forall(i, 0, len(msg.Prices), cmAll(msg, i, cmDec(*agc.params, msg.FeederID)))
 //@ loop #1
-//@   invariant true
+//@   invariant[C13.cm.decimals] -1 <= rangeindex && rangeindex < len(msg.Prices) && forall(i, 0, rangeindex + 1, cmAll(msg, i, cmDec(*agc.params, msg.FeederID)))
 //@ loop #2
-//@   invariant true
+//@   invariant[C13.cm.decimals] -1 <= outer_rangeindex && outer_rangeindex + 1 < len(msg.Prices) && forall(i, 0, outer_rangeindex + 1, cmAll(msg, i, cmDec(*agc.params, msg.FeederID)))
+//@   invariant[C13.cm.decimals] -1 <= rangeindex && rangeindex < len(msg.Prices[outer_rangeindex + 1].Prices) &&
+//@        forall(j, 0, rangeindex + 1, msg.Prices[outer_rangeindex + 1].Prices[j].Decimal == cmDec(*agc.params, msg.FeederID))
